@@ -17,6 +17,9 @@ RULE = (
     "Non-trivial = a channel with >= 2 operators was applied; distinct = (entry, storage, representations, "
     "number of targets/operators, block spread, layout hash)."
 )
+from pw_verif.props._machine import HISTORY_NOTE, SURVIVOR_NOTE  # noqa: E402,F401
+
+RULE += SURVIVOR_NOTE + HISTORY_NOTE
 ASSUMPTIONS = ["reference self-tests passed", "operators sized from the targets' public dimensions, tensor factors in operand order",
                "targets' joint dimension <= 36"]
 
